@@ -87,7 +87,7 @@ for d in sorted(os.listdir(os.path.join(ROOT, "seeded"))):
     subprocess.check_call(["git", "-C", "/repo", "apply", os.path.join(p, "patch.diff")])
     try:
         r = subprocess.run([os.path.join(ROOT, "check"), prop, "quick"], capture_output=True, text=True, cwd=ROOT,
-                           env={**os.environ, "PVC_EVIDENCE_DIR": "/tmp/pvc_seeded_evidence"})
+                           env={**os.environ, "PVC_EVIDENCE_DIR": "/tmp/pvc_seeded_evidence", "PVC_NO_DEMOS": "1"})
     finally:
         subprocess.check_call(["git", "-C", "/repo", "checkout", "--", "."])
     viol = [re.sub(r".*replay=\S*/", "", l) for l in r.stdout.splitlines() if l.startswith("VIOLATION")]
